@@ -245,12 +245,44 @@ def template_grammars():
     roles2 = {'Atom': 'class', 'tok': 'field', 'Paren': 'class-template', 'opener': 'param', 'open': 'field', 'body': 'field',
               'close': 'field'}
     out.append(('optable', dict(name=None, extends=None, stmts=stmts2), roles2))
+    # every kind of construct compiled into a body that also holds bound names (parameter, let, field):
+    # keyword calls, an operator table handed to a template, lists, Longest, Skip, lookahead -- and
+    # fields declared *after* such constructs
+    W, NUM = ('ref', 'Word'), ('ref', 'Num')
+    stmts3 = [
+        ('rule', 'start', None, ('star', ('ref', 'Item'))),
+        ('rule', 'Item', None, ('alt', [('ref', 'KwLet'), ('ref', 'KwCall'), ('ref', 'KwCls'), ('ref', 'TabCls'), ('ref', 'Misc')])),
+        ('rule', 'Pairing', ['first', 'second'], ('seq', [('ref', 'first'), ('str', '~'), ('ref', 'second')])),
+        ('rule', 'KwLet', None, ('let', 'kl', ('right', ('str', 'k'), W),
+                                 ('call', 'Pairing', [('kw', 'first', W), ('kw', 'second', ('where', W, ('py', 'lambda t: t != kl')))]))),
+        ('rule', 'KwTpl', ['kp'], ('call', 'Pairing', [('kw', 'second', ('ref', 'kp')), ('kw', 'first', W)])),
+        ('rule', 'KwCall', None, ('right', ('str', 't'), ('call', 'KwTpl', [('str', '!')]))),
+        ('class', 'KwCls', None, [('field', 'kf', ('right', ('str', '@'), W)), ('field', 'kg', ('call', 'Pairing', [('kw', 'first', W), ('kw', 'second', NUM)])),
+                                  ('field', 'kh', ('py', 'kf'))]),
+        ('rule', 'Wrap1', ['wp'], ('right', ('str', '<'), ('left', ('ref', 'wp'), ('str', '>')))),
+        ('class', 'TabCls', None, [('field', 'ta', ('right', ('str', '#'), ('call', 'Wrap1', [('optable', W, [('postfix', [('str', '!')]), ('left', [('str', '+')])])]))),
+                                   ('field', 'tb', W), ('field', 'tc', ('py', 'tb'))]),
+        ('class', 'Misc', None, [('field', 'ma', ('right', ('str', '^'), W)), ('field', 'mb', ('sep', NUM, ('str', ','), {'_op': '//'})),
+                                 ('field', 'mc', ('opt', ('longest', [NUM, W]))), ('field', 'md', ('skip', [('str', ';')])),
+                                 ('field', 'me', ('right', ('expectnot', ('str', '^')), ('py', 'ma'))),
+                                 ('field', 'mf', ('rep', ('str', '.'), None, 2))]),
+        ('rule', 'Num', None, ('re', '[0-9]+', False)),
+        ('rule', 'Word', None, T),
+        ('irule', 'Blank', ('re', ' +', False)),
+    ]
+    roles3 = {'Item': 'rule', 'Pairing': 'template', 'first': 'param', 'second': 'param', 'KwLet': 'rule', 'kl': 'let',
+              'KwTpl': 'template', 'kp': 'param', 'KwCall': 'rule', 'KwCls': 'class', 'kf': 'field', 'kg': 'field', 'kh': 'field',
+              'Wrap1': 'template', 'wp': 'param', 'TabCls': 'class', 'ta': 'field', 'tb': 'field', 'tc': 'field',
+              'Misc': 'class', 'ma': 'field', 'mb': 'field', 'mc': 'field', 'md': 'field', 'me': 'field', 'mf': 'field'}
+    out.append(('constructs', dict(name=None, extends=None, stmts=stmts3), roles3))
     return out
 
 
 INPUTS = {
     'main': ['', 'a', 'a:1', 'a=b', 'a:1,2,3', 'a:1! b', '(a;b:2;)', '<a b>', '<a>3', '$a b', '$a ? b', '$a a', 'a:1 (b) <c d> $e f',
              '(a:1,2;(b))', 'a:', '(a', '<a b c>', '$', 'a : 1 , 2', '%22 <a b>', '%1 <a>', '%1 <>', '&a <b>', '&a <a>', '%22 <a> &x <y>', '<a b>', '<a b>22'],
+    'constructs': ['', 'k a b~c', 'k a b~a', 't a~!', '@a b~1', '#<a+b!> c', '#<a> b', '^a 1,2 x;', '^a ;;..', '^a 1 22 ;.',
+                   'k a b~c t d~! @e f~2 #<g+h> i ^j 1,2,3 9 ; ..', 'k a b', '@a b~', '#<a+> c', '^', '^a 1, ;'],
     'optable': ['1', '1+2', '1+2*3', '-1!', '(1+2)*3', '12x+1', '(1', '1+', '((1))!', '1*(2+3)!'],
 }
 
@@ -345,7 +377,7 @@ def inconclusive(counters, evaluations, tier):
 
 def run_shard(rec):
     quick = rec.tier == 'quick'
-    rec.deadline = time.time() + (60 if quick else 600)
+    rec.deadline = time.time() + (240 if quick else 900)
     ex_attrs = expression_attrs()
     pool = hostile_pool(ex_attrs)
     idx = 0
